@@ -46,12 +46,10 @@ def keyCmp (n1 : Bytes) (k1 : Nat) (n2 : Bytes) (k2 : Nat) : Int :=
   let r := Bytes.strcasecmp n1 n2
   if r == 0 then (k1 : Int) - (k2 : Int) else r
 
-/-- `set_find` in a scratch set -/
+/-- `set_find` in a scratch set: the element that compares equal -/
 def pfind (name : Bytes) (kind : Nat) : List PNode → Option PNode
   | [] => none
-  | n :: ns =>
-    let c := keyCmp name kind n.name n.kind
-    if c == 0 then some n else if c < 0 then none else pfind name kind ns
+  | n :: ns => if keyCmp name kind n.name n.kind == 0 then some n else pfind name kind ns
 
 /-- `conf_parse_get_child` followed by the caller's update: `mk none` builds a fresh
     node, `mk (some old)` updates the one already there (which keeps its own name). -/
